@@ -300,7 +300,26 @@ var loopExceptions = []loopException{
 			if !ok || post.Tok != token.ADD_ASSIGN || types.ExprString(post.Lhs[0]) != types.ExprString(cond.X) {
 				return "the post statement is not x += step"
 			}
-			q, ok := ast.Unparen(post.Rhs[0]).(*ast.BinaryExpr)
+			stepExpr := ast.Unparen(post.Rhs[0])
+			if id, isId := stepExpr.(*ast.Ident); isId {
+				// a loop-invariant local: its single definition
+				defs := 0
+				ast.Inspect(fd.Body, func(n ast.Node) bool {
+					if as, ok := n.(*ast.AssignStmt); ok {
+						for i, l := range as.Lhs {
+							if lid, ok := l.(*ast.Ident); ok && (info.Defs[lid] == info.Uses[id] || info.Uses[lid] == info.Uses[id]) && i < len(as.Rhs) {
+								defs++
+								stepExpr = ast.Unparen(as.Rhs[i])
+							}
+						}
+					}
+					return true
+				})
+				if defs != 1 {
+					return "the step variable is assigned more than once"
+				}
+			}
+			q, ok := stepExpr.(*ast.BinaryExpr)
 			if !ok || q.Op != token.QUO {
 				return "the step is not K / float64(steps)"
 			}
